@@ -45,7 +45,7 @@ func scenC36(e *Env) func() {
 	p := &c36Plan{}
 	n := e.Range(2, 6)
 	for i := 0; i < n; i++ {
-		c := c36Case{ID: fmt.Sprint(i), Method: Pick(e, "GET", "GET", "POST", "PUT", "DELETE"), Target: Pick(e, "/a", "/a/b?x=1&y=2", "/p%20q?z=%41", "/", "/a?x=1&x=2")}
+		c := c36Case{ID: fmt.Sprint(i), Method: Pick(e, "GET", "GET", "POST", "PUT", "DELETE"), Target: Pick(e, "/a", "/a/b?x=1&y=2", "/p%20q?z=%41", "/", "/a?x=1&x=2", "/a//b", "/a/./b/../c", "/files/a%2Fb.txt", "/p%41th", "/a/b/?", "/%7Euser/x;p=1", "/a+b?q=a+b")}
 		nh := e.Range(0, 4)
 		for j := 0; j < nh; j++ {
 			c.Headers = append(c.Headers, [2]string{Pick(e, "X-Req-A", "X-Req-A", "X-Req-B", "Accept", "Cookie", "X-Forwarded-For"), fmt.Sprintf("v%d-%d", i, j)})
